@@ -9,7 +9,7 @@
 //
 // oracles  <op index>:<sorted buffer after that Add>, ';'-separated, one for every Add during
 //
-//	which the threshold moved ("." = none, "-" = empty buffer).  Go's map order decides
+//	which a halving pass ran (it drew words beyond its coin word, or the threshold moved) ("." = none, "-" = empty buffer).  Go's map order decides
 //	WHICH elements a halving pass drops; that is not observable and not predictable, so it
 //	is handed to the model as an oracle (validated there).  Because the map order differs
 //	from run to run, this field is always rewritten from the run at hand — in a replay the
@@ -44,7 +44,8 @@ type noWords struct{}
 type source struct {
 	script []uint64
 	pos    int
-	gen    func(first bool) uint64 // nil: scripted only
+	gen    func(first bool, p uint64) uint64 // nil: scripted only; p = the threshold before the current Add
+	curP   uint64
 	first  bool                    // the next word is the first one drawn by the current Add
 	inAdd  int                     // words drawn by the current Add
 	used   []uint64
@@ -56,7 +57,7 @@ func (s *source) Uint64() uint64 {
 		w = s.script[s.pos]
 		s.pos++
 	} else if s.gen != nil {
-		w = s.gen(s.first)
+		w = s.gen(s.first, s.curP)
 		if s.inAdd > 100 {
 			// a repaired (looping) Add under an all-keep policy would spin forever: after 100 words
 			// within one Add switch to alternating words, which halve the buffer under either polarity
@@ -173,6 +174,7 @@ func runCase(cp int, ops []op, src *source) (oracles, output string, inf info) {
 			// a coin word is drawn only when the threshold is below its maximum; otherwise the
 			// first word drawn by this Add already feeds the pass
 			src.first = p0 != math.MaxUint64
+			src.curP = p0
 			src.inAdd = 0
 			nw := len(src.used)
 			func() {
@@ -190,7 +192,13 @@ func runCase(cp int, ops []op, src *source) (oracles, output string, inf info) {
 			if failed != "" {
 				break
 			}
-			if c.VerifP() != p0 {
+			// a halving pass ran iff the Add drew words beyond its coin word (the threshold itself
+			// does not move any more once it is 0)
+			coinWords := 0
+			if p0 != math.MaxUint64 {
+				coinWords = 1
+			}
+			if len(src.used)-nw > coinWords || c.VerifP() != p0 {
 				inf.halved = true
 				orc = append(orc, strconv.Itoa(i)+":"+sortedBuf(c))
 				if c.Len() >= l0+1 || (c.Len() == l0 && l0 >= cp && cp > 0) {
@@ -277,14 +285,17 @@ const (
 
 type policy struct {
 	name string
-	gen  func(first bool) uint64
+	gen  func(first bool, p uint64) uint64
 }
 
 // coin word policies × pass word policies.  The first word of an Add (when the threshold is below
 // its maximum) is the coin word; all later ones feed the halving pass.
 func mkPolicy(r *tr.Rand, coin, pass int) policy {
-	coinW := func() uint64 {
+	coinW := func(p uint64) uint64 {
 		switch coin {
+		case 5:
+			// the boundary of the coin: threshold-1 wins, threshold and threshold+1 lose
+			return p + uint64(r.Intn(3)) - 1
 		case 0:
 			return 0 // always passes (unless the threshold is 0)
 		case 1:
@@ -318,9 +329,9 @@ func mkPolicy(r *tr.Rand, coin, pass int) policy {
 			return r.Uint64()
 		}
 	}
-	return policy{fmt.Sprintf("c%dp%d", coin, pass), func(first bool) uint64 {
+	return policy{fmt.Sprintf("c%dp%d", coin, pass), func(first bool, p uint64) uint64 {
 		if first {
-			return coinW()
+			return coinW(p)
 		}
 		return passW()
 	}}
@@ -465,15 +476,56 @@ func (g *gen) run() {
 			tail := stream(r, r.Intn(c1+2), 1+r.Intn(3), 0)
 			ops = append(append(append([]op{}, ops[:at]...), op{}), append(tail, ops[at:]...)...)
 		}
-		coin := r.Intn(6)
+		coin := r.Intn(7)
 		pass := r.Intn(8)
 		g.emit(cp, ops, mkPolicy(r, coin, pass), nil, "random")
+	}
+
+	// 5. extreme sizes (the size is an int the caller controls; the code only compares it with Len):
+	//    the largest ints never leave the exact regime, the smallest halve on every successful Add
+	for _, cp := range []int{math.MaxInt64, math.MaxInt64 - 1, 1 << 62, 1 << 32, math.MinInt64, math.MinInt64 + 1, -(1 << 40)} {
+		for i := 0; i < 6; i++ {
+			ops := stream(r, 1+r.Intn(40), 1+r.Intn(3), 0)
+			if i%2 == 1 {
+				ops = append(ops, op{}, op{true, 7}, op{true, 7}, op{true, 8})
+			}
+			g.emit(cp, ops, mkPolicy(r, r.Intn(7), r.Intn(8)), nil, "extreme-size")
+		}
 	}
 }
 
 // ---- statistical supporting run
 
 type statCfg struct{ cp, d, rep, runs int }
+
+// one-sided Gaussian tail
+func normTail(z float64) float64 { return 0.5 * math.Erfc(z/math.Sqrt2) }
+
+// The tolerance.  The mean of n independent Counts is compared with the true distinct count in
+// units of the estimated standard error (a self-normalised sum).  Count is right-skewed (heavily
+// so for sizes 2 and 3: sd about 1.5 x the mean, skewness 3..6), so the plain Gaussian tail
+// 2*Q(z) understates the chance of |t| > z.  For self-normalised sums the ratio of the true tail
+// to the Gaussian one is about exp(z^3 * skewness / (3 sqrt n)) on the unfavourable side
+// (Cramer-type moderate deviations: Shao 1999; Jing, Shao, Wang 2003).  z is therefore chosen per
+// configuration as the smallest value >= 8 for which
+//
+//	2 * Q(z) * exp(z^3 * g / (3 sqrt n))  <=  1e-10 / #configurations,   g = 2 * max(|sample skewness|, 1)
+//
+// (the factor 2 because the sample skewness of a heavy-tailed variable errs on the low side), so
+// that the whole run has a false-alarm chance below 1e-10 by this estimate, a factor 10 inside the
+// 1e-9 the property allows.  The variance is the sample variance, never less than 1/4 (Count is an
+// integer: a floor only widens the tolerance, so a freak sample with a tiny variance cannot raise
+// an alarm by itself).  Below the size the estimate must be exact in every single run.
+func chooseZ(skew float64, n int, budget float64) (z, bound float64) {
+	g := 2 * math.Max(math.Abs(skew), 1)
+	for z = 8; z < 40; z += 0.25 {
+		bound = 2 * normTail(z) * math.Exp(z*z*z*g/(3*math.Sqrt(float64(n))))
+		if bound <= budget {
+			return z, bound
+		}
+	}
+	return z, bound
+}
 
 func stat(args []string) {
 	tier, seed := "quick", uint64(1)
@@ -490,9 +542,9 @@ func stat(args []string) {
 	}
 	var cfgs []statCfg
 	for _, cp := range []int{2, 3, 8, 64} {
-		runs := 30000
+		runs := 60000
 		if cp == 64 {
-			runs = 6000
+			runs = 8000
 		}
 		for _, d := range []int{cp - 1, cp, cp + 1, 4 * cp, 30 * cp} {
 			if cp == 64 && d == 30*cp {
@@ -503,30 +555,33 @@ func stat(args []string) {
 			}
 		}
 	}
+	budget := 1e-10 / float64(len(cfgs))
 	type res struct {
-		cfg                statCfg
-		mean, sd, se, tol  float64
-		exceeded           int
-		maxLen             int
-		ok                 bool
-		streamLen, distinc int
+		cfg                 statCfg
+		mean, sd, se, tol   float64
+		skew, z, bound, dev float64
+		exceeded            int
+		maxLen              int
+		ok                  bool
+		streamLen, distinc  int
 	}
 	results := make([]res, len(cfgs))
 	var wg sync.WaitGroup
 	sem := make(chan struct{}, 8)
+	t0 := time.Now()
 	for ci, cfg := range cfgs {
 		wg.Add(1)
 		go func() {
 			defer wg.Done()
 			sem <- struct{}{}
 			defer func() { <-sem }()
-			r := tr.NewRand(seed*7919 + uint64(ci))
+			r := tr.NewRand(seed*7919 + uint64(ci)) // the STREAM depends on the seed; the counters draw fresh entropy
 			ops := stream(r, cfg.d, cfg.rep, 0)
 			dist := map[int]bool{}
 			for _, o := range ops {
 				dist[o.v] = true
 			}
-			var sum, sumsq float64
+			xs := make([]float64, cfg.runs)
 			exceeded, maxLen := 0, 0
 			for i := 0; i < cfg.runs; i++ {
 				c := distinct.NewCounter[int](cfg.cp) // the real constructor: fresh entropy from crypto/rand
@@ -541,53 +596,73 @@ func stat(args []string) {
 				if ex {
 					exceeded++
 				}
-				x := float64(c.Count())
-				sum += x
-				sumsq += x * x
+				xs[i] = float64(c.Count())
 			}
 			nf := float64(cfg.runs)
+			var sum float64
+			for _, x := range xs {
+				sum += x
+			}
 			mean := sum / nf
-			vr := (sumsq - nf*mean*mean) / (nf - 1)
-			if vr < 0 {
-				vr = 0
+			var m2, m3 float64
+			for _, x := range xs {
+				dd := x - mean
+				m2 += dd * dd
+				m3 += dd * dd * dd
 			}
-			sd := math.Sqrt(vr)
-			se := sd / math.Sqrt(nf)
-			tol := 8 * se // >= 7 standard errors; two-sided Gaussian tail at 8 sigma is 1.2e-15
+			vr := m2 / (nf - 1)
+			skew := 0.0
+			if m2 > 0 {
+				skew = (m3 / nf) / math.Pow(m2/nf, 1.5)
+			}
 			want := float64(len(dist))
+			exact := len(dist) < cfg.cp
+			sd := math.Sqrt(vr)
+			z, bound := chooseZ(skew, cfg.runs, budget)
+			se := math.Sqrt(math.Max(vr, 0.25) / nf)
+			tol := z * se
 			ok := math.Abs(mean-want) <= tol
-			if len(dist) < cfg.cp {
-				ok = sd == 0 && mean == want // exact regime: every single run must be exact
+			if exact {
+				ok = vr == 0 && mean == want // exact regime: every single run must be exact
+				z, bound, tol, se = 0, 0, 0, 0
 			}
-			results[ci] = res{cfg, mean, sd, se, tol, exceeded, maxLen, ok, len(ops), len(dist)}
+			results[ci] = res{cfg, mean, sd, se, tol, skew, z, bound, (mean - want) / math.Max(se, 1e-300), exceeded, maxLen, ok, len(ops), len(dist)}
 		}()
 	}
 	wg.Wait()
 	bad := 0
 	var rows []map[string]any
 	totalRuns, totalExceeded := 0, 0
+	totalBound := 0.0
 	for _, x := range results {
-		rows = append(rows, map[string]any{"cap": x.cfg.cp, "distinct": x.distinc, "stream_len": x.streamLen, "runs": x.cfg.runs,
-			"mean_count": x.mean, "sd": x.sd, "std_err": x.se, "tolerance_8se": x.tol, "runs_with_len_over_cap": x.exceeded, "ok": x.ok})
+		row := map[string]any{"cap": x.cfg.cp, "distinct": x.distinc, "stream_len": x.streamLen, "runs": x.cfg.runs,
+			"mean_count": x.mean, "sd": x.sd, "skewness": x.skew, "std_err": x.se, "z": x.z, "tolerance": x.tol,
+			"false_alarm_estimate": x.bound, "runs_with_len_over_cap": x.exceeded, "ok": x.ok}
+		if x.z > 0 {
+			row["deviation_in_std_errs"] = x.dev
+		}
+		rows = append(rows, row)
 		totalRuns += x.cfg.runs
 		totalExceeded += x.exceeded
-		fmt.Printf("stat cap=%d distinct=%d stream=%d runs=%d mean=%.4f sd=%.3f tol=%.4f len>cap-in-runs=%d %v\n",
-			x.cfg.cp, x.distinc, x.streamLen, x.cfg.runs, x.mean, x.sd, x.tol, x.exceeded, x.ok)
+		totalBound += x.bound
+		fmt.Printf("stat cap=%d distinct=%d stream=%d runs=%d mean=%.4f sd=%.3f skew=%.2f z=%.2f tol=%.4f len>cap-in-runs=%d %v\n",
+			x.cfg.cp, x.distinc, x.streamLen, x.cfg.runs, x.mean, x.sd, x.skew, x.z, x.tol, x.exceeded, x.ok)
 		if !x.ok {
 			bad++
-			fmt.Printf("FAIL input=stat:cap=%d,distinct=%d,stream_len=%d,rep=%d,runs=%d,seed=%d reason=mean-of-Count=%.4f,true-distinct=%d,tolerance(8-std-errors)=%.4f\n",
-				x.cfg.cp, x.distinc, x.streamLen, x.cfg.rep, x.cfg.runs, seed, x.mean, x.distinc, x.tol)
+			fmt.Printf("FAIL input=stat:cap=%d,distinct=%d,stream_len=%d,rep=%d,runs=%d,seed=%d reason=mean-of-Count=%.4f,true-distinct=%d,tolerance(%.2f-std-errors)=%.4f\n",
+				x.cfg.cp, x.distinc, x.streamLen, x.cfg.rep, x.cfg.runs, seed, x.mean, x.distinc, x.z, x.tol)
 		}
 	}
-	b, _ := json.Marshal(map[string]any{"what": "mean of Count over independent real counters (NewCounter, crypto/rand seeds) on fixed streams with repeats; tolerance 8 standard errors; supporting evidence only",
-		"configs": rows, "total_runs": totalRuns, "runs_in_which_len_exceeded_cap_(F8)": totalExceeded})
+	b, _ := json.Marshal(map[string]any{"what": "mean of Count over independent real counters (NewCounter, crypto/rand seeds) on fixed streams with repeats (the streams depend on the seed); tolerance z standard errors, z >= 8 chosen per configuration from the sample skewness so that the estimated false-alarm chance of the whole run is below 1e-10; supporting evidence only",
+		"configs": rows, "total_runs": totalRuns, "runs_in_which_len_exceeded_cap_(F8)": totalExceeded,
+		"false_alarm_estimate_total": totalBound, "seed": seed, "wall_s": time.Since(t0).Seconds()})
 	fmt.Println("EXTRA-JSON " + string(b))
 	if bad > 0 {
 		os.Exit(1)
 	}
 }
 
-const rule = "C19: every stream over 3 values up to length 4 (quick) / 6 (thorough) at sizes 1..3 under 12 word policies; the F8 family (a pass that keeps everything, sizes 2..8); deep thresholds (every Add halves, down to threshold 0); random histories: sizes 1..8 mostly, 9..40, 64..203 (passes that refill), 0/-1; distinct counts below/at/above/far above the size, each value repeated 1..4 times interleaved, Resets; scripted sources = 6 coin-word policies x 8 pass-word policies (all-keep, all-drop, alternating, sparse, dense, random). Observed after every operation: Len, Count, threshold; final buffer. A case is non-trivial when a halving happened or a value was repeated."
+const rule = "C19 (round 2: words drawn per operation observed; coin words on the boundary of the threshold; sizes MaxInt64/MinInt64): every stream over 3 values up to length 4 (quick) / 6 (thorough) at sizes 1..3 under 12 word policies; the F8 family (a pass that keeps everything, sizes 2..8); deep thresholds (every Add halves, down to threshold 0); random histories: sizes 1..8 mostly, 9..40, 64..203 (passes that refill), 0/-1; distinct counts below/at/above/far above the size, each value repeated 1..4 times interleaved, Resets; scripted sources = 6 coin-word policies x 8 pass-word policies (all-keep, all-drop, alternating, sparse, dense, random). Observed after every operation: Len, Count, threshold; final buffer. A case is non-trivial when a halving happened or a value was repeated."
 
 func main() {
 	if len(os.Args) > 1 && os.Args[1] == "-stat" {
